@@ -77,12 +77,45 @@ def shapes():
     return [{p: ("d" if isd else "f") for p, isd in sh.items()} for sh in c09.shapes()]
 
 
-def single_case(b: Batch, state, op, recursive, full, idx):
-    """Fresh universe: build `state`, start the watch, apply `op` between two drains, judge the contract."""
+def apply_op(state: dict, op):
+    """pure model of an operation on {rel -> kind} (paths as produced by enumerate_ops)"""
+    st = dict(state)
+    r = lambda p: p[len("root/"):]  # noqa: E731
+    k = op[0]
+    if k == "create":
+        st[r(op[1])] = "f"
+    elif k == "mkdir":
+        st[r(op[1])] = "d"
+    elif k == "makedirs":
+        parts = r(op[1]).split("/")
+        for i in range(1, len(parts) + 1):
+            st.setdefault("/".join(parts[:i]), "d")
+    elif k in ("unlink", "rmdir", "rmtree", "move_out"):
+        p = r(op[1])
+        for q in [q for q in st if q == p or q.startswith(p + "/")]:
+            del st[q]
+    elif k == "rename":
+        s_, d_ = r(op[1]), r(op[2])
+        sub = {q: st[q] for q in st if q == s_ or q.startswith(s_ + "/")}
+        for q in [q for q in st if q == d_ or q.startswith(d_ + "/")] + list(sub):
+            st.pop(q, None)
+        for q, kk in sub.items():
+            st[d_ + q[len(s_):]] = kk
+    elif k == "move_in":
+        d_ = r(op[2])
+        if op[1] == "out/file":
+            st[d_] = "f"
+        else:
+            st.update({d_: "d", d_ + "/a": "d", d_ + "/a/b": "f", d_ + "/b": "f"})
+    return st
+
+
+def single_case(b: Batch, state, op, recursive, full, idx, prop="C03", script=None, single_step=True, justify=fsjustify.justify):
+    """Fresh universe: build `state`, start the watch, apply `op` (or a script of ops) between drains, judge."""
     import os
 
-    cfg = {"seed": idx, "recursive": recursive, "full": full, "n_root": 0, "n_out": 0, "delay": 0.5, "single_step": True,
-           "final_probes": False, "probe_p": 0.0, "mode": "single", "state": sorted(state.items()), "script": [list(op)]}
+    cfg = {"seed": idx, "recursive": recursive, "full": full, "n_root": 0, "n_out": 0, "delay": 0.5 if single_step else 0.1, "single_step": single_step,
+           "final_probes": False, "probe_p": 0.0, "mode": "single", "state": sorted(state.items()), "script": [list(op)] if script is None else [list(o) for o in script]}
     h = fshist.History(cfg)
     orig_populate = fshist.Universe.populate
 
@@ -107,10 +140,10 @@ def single_case(b: Batch, state, op, recursive, full, idx):
 
     fshist.Universe.populate = populate
     try:
-        h.run(justify=fsjustify.justify)
+        h.run(justify=justify)
     finally:
         fshist.Universe.populate = orig_populate
-    fshist.account(b, h, "C03", cfg, nontrivial=h.events_seen >= 1)
+    fshist.account(b, h, prop, cfg, nontrivial=h.events_seen >= 1)
     return h
 
 
